@@ -165,6 +165,31 @@ func (c *c03) Generate(cx *Ctx, chunk int) []*Item {
 			add([]*term.Term{term.C(":-", head, term.C(",", leftNested(b[:2]), leftNested(b[2:]))), last}, "left-nested-mixed")
 		}
 	}
+	// predicates whose clauses have constants as first head argument, called with that argument bound (by an
+	// outer generator that leaves a choice point): clause selection by first argument must not change what a
+	// cut in the selected clause discards
+	query2 := term.MustParse("outer2(A, K, Y, B)")
+	outer2 := term.MustParse("outer2(A, K, Y, B) :- n(A), m(K), inner2(K, Y), m(B)")
+	for i := 0; i < 1500; i++ {
+		var cls []*term.Term
+		nc := 2 + r.Intn(3)
+		for c := 0; c < nc; c++ {
+			var first *term.Term
+			switch r.Intn(5) {
+			case 0:
+				first = term.V(5) // a variable first argument
+			case 1:
+				first = term.A("z") // never selected
+			default:
+				first = term.I(int64(1 + r.Intn(3)))
+			}
+			b := bodies[r.Intn(len(bodies))]
+			cls = append(cls, term.C(":-", term.C("inner2", first, term.V(1)), c03Body(b)))
+		}
+		prog := append(append([]*term.Term{}, base...), outer2)
+		prog = append(prog, cls...)
+		metas = append(metas, &DiffMeta{Program: prog, Query: query2, NVars: 4, Max: 80, Family: "first-argument-constants"})
+	}
 	cx.exhaustive = true
 	nPairs, nRandom, nLen4 := 4000, 2500, 0
 	if cx.Thorough() {
